@@ -13,6 +13,15 @@ them into the segment sequence the reader sees; `recountSegs` is the structural 
   not_nested_reports_full (def), not_nested_reports_counterexample      "any other arrangement draws an error" is FALSE (D38)
   not_nested_reports_partial                                            … it is true for what a stack can notice
   properlyNested_iff, flattenDoc_properlyNested                         the recogniser accepts exactly the flattenings
+
+`fieldInt` / `pyInt` (Python `int()` on IEA01, GE01, SE01, HL01, HL02, LX01) is modelled for EVERY string: Unicode decimal digits
+of all 68 Nd runs and the non-ASCII `isspace` characters included, so no theorem above carries an ASCII hypothesis.
+  pyInt_ascii                      on text below U+007F it is the ASCII reader (the former definition of `pyInt`)
+  pyInt_ascii_digits               a run of 1 .. 4300 ASCII digits reads as its decimal value
+  pyInt_unicode_digits             … so does a run of decimal digits of any scripts (Proofs/EnvelopeInt)
+  pyInt_skips, pyInt_rejects       white space skipped on the left; a non-convertible character anywhere ⇒ not a number
+  isPySpace_iff, pyDigitVal_eq_some  the two tables restated point by point (Proofs/EnvelopeInt)
+  pyInt_unicode_example            non-vacuity: `int('١٢') = 12`, `int('1\u2028') = 1`, `int('\x1c1')` fails, …
 -/
 import Pyx12Verif.Proofs.EnvelopeTail
 import Pyx12Verif.Proofs.EnvelopeNest
@@ -237,6 +246,51 @@ def badDoc : List Interchange :=
 example : recount true badDoc =
     [Err.st23, Err.st3, Err.st4, Err.gs4, Err.gs5, Err.isa021, Err.isa025, Err.isa001] := by decide
 example : errs (run Fixes.all true (flatten badDoc)) = recount true badDoc := by decide
+
+/-! ### `int()` beyond ASCII -/
+
+/-- below U+007F `int()` is the ASCII reader: `pyInt` as it was defined before non-ASCII text was modelled -/
+theorem pyInt_ascii (s : Str) (h : ∀ c ∈ s, c.toNat < 127) : pyInt s = signedInt (dropSpace s) :=
+  pyInt_of_ascii s h
+
+/-- a run of 1 .. 4300 ASCII digits reads as its decimal value (`Nat.ofDigitChars`: the standard library's reading) -/
+theorem pyInt_ascii_digits (s : Str) (hne : s ≠ []) (h : ∀ c ∈ s, isDigit c = true) (hlen : s.length ≤ maxStrDigits) :
+    pyInt s = some (Nat.ofDigitChars 10 s 0 : Nat) := by
+  rw [pyInt_unicode_digits s hne (fun c hc => by rw [pyDigitVal_ascii c (h c hc)]; simp) hlen]
+  have key : ∀ (l : Str) (acc : Nat), (∀ c ∈ l, isDigit c = true) → uniVal acc l = Nat.ofDigitChars 10 l acc := by
+    intro l
+    induction l with
+    | nil => intro acc _; simp [uniVal]
+    | cons c r ih =>
+      intro acc hl
+      simp only [uniVal, pyDigitVal_ascii c (hl c (by simp)), Option.getD_some, Nat.ofDigitChars_cons]
+      rw [ih _ (fun x hx => hl x (List.mem_cons_of_mem _ hx)), Nat.mul_comm]
+      rfl
+  rw [key s 0 h]
+
+/-- what `int()` skips on the left: `\t \n \v \f \r`, blank and every `isspace` character from U+007F up -/
+theorem pyInt_skips (c : Char) (s : Str) (h : isIntSpace c = true ∨ (127 ≤ c.toNat ∧ isPySpace c = true)) :
+    pyInt (c :: s) = pyInt s := by
+  apply pyInt_skip_left
+  simp only [isSkipped, Bool.or_eq_true, Bool.and_eq_true, decide_eq_true_eq]
+  exact h
+
+/-- a character from U+007F up that is neither `isspace` nor a decimal digit, anywhere: `int()` raises ValueError -/
+theorem pyInt_rejects (a b : Str) (c : Char) (h1 : 127 ≤ c.toNat) (h2 : isPySpace c = false) (h3 : pyDigitVal c = none) :
+    pyInt (a ++ c :: b) = none :=
+  pyInt_bad_char a b c ⟨h1, h2, h3⟩
+
+/-- non-vacuity, each line observed on CPython 3.12: Arabic-Indic and fullwidth digits, mixed scripts, U+2028 / U+00A0 /
+U+3000 / U+0085 skipped, U+001C (isspace, but not skipped), a non-digit letter, superscript two (a digit, not a decimal) -/
+theorem pyInt_unicode_example :
+    pyInt ['١', '٢'] = some 12 ∧ pyInt ['1', ' '] = some 1 ∧ pyInt ['１', '٢', '3'] = some 123 ∧
+    pyInt ['\u2028', '-', '٤', '_', '２', '\u00a0', '\u3000', '\u0085'] = some (-42) ∧
+    pyInt ['1', '\u2028'] = some 1 ∧ pyInt ['\u2028'] = none ∧ pyInt ['\x1c', '1'] = none ∧ pyInt ['1', '\x1f'] = none ∧
+    pyInt ['1', 'é'] = none ∧ pyInt ['²'] = none ∧ pyInt ['１', '_', '_', '２'] = none ∧ pyInt ['𝟗', '\x7f'] = none ∧
+    pyInt ['𝟗', '𑁦'] = some 90 := by decide
+
+example : isPySpace '\x1c' = true ∧ isPySpace '\u2029' = true ∧ isPySpace '\u200b' = false ∧
+    pyDigitVal '٣' = some 3 ∧ pyDigitVal '🯹' = some 9 ∧ pyDigitVal '²' = none ∧ pyDigitVal 'a' = none := by decide
 
 example : pyInt [' ', '+', '1', '_', '0', '\t'] = some 10 := by decide
 example : pyInt ['1', '_'] = none ∧ pyInt ['_', '1'] = none ∧ pyInt ['1', '_', '_', '0'] = none ∧
